@@ -2,7 +2,7 @@
    API history, whether the last call ended in success, timeout or an error). *)
 From Coq Require Import ZArith NArith List Bool Floats.
 From OX Require Import Numerics.FloatBits Planners.Model Proofs.ValidInv Proofs.TreeInv Proofs.Links Proofs.ApiValid
-  Proofs.ApiStruct Proofs.StarInv Proofs.TreeFinal.
+  Proofs.ApiStruct Proofs.StarInv Proofs.TreeFinal Proofs.StarFuel.
 Import ListNotations.
 
 Section C15.
@@ -79,6 +79,18 @@ Theorem C15_extraction_terminates_rrtstar : forall (t : list (node S)) i, reach 
   forall acc, exists fuel p, walk t fuel i acc = Some (Some p).
 Proof. exact reach_walk_terminates. Qed.
 
+(* ... and the bound |tree|+1 that the code's implicit "a chain cannot be longer than the tree" gives the
+   model suffices (pigeonhole): from no node of a reachable RRT* tree does extraction hang or panic *)
+Theorem C15_extraction_never_hangs_rrtstar : (forall a b, fle zero (dist a b) = true) ->
+  forall seeded cs s rs i,
+  run rrtstar_step (new_planner seeded) cs = (s, rs) -> (i < length (tree s))%nat ->
+  exists p, reconstruct (tree s) i = Some (Some p).
+Proof.
+  intros Hd seeded cs s rs i Hrun Hi.
+  exact (reconstruct_SInv_terminates dist (tree s) i
+           (rrtstar_reachable_SInv dist interp lvs valid goal starts u64_at usample gsample maxd bias radius Hd seeded cs s rs Hrun) Hi).
+Qed.
+
 Theorem C15_extracted_path_sound : forall (R : S -> S -> Prop) (t : list (node S)) i p,
   LinkInv R t -> reconstruct t i = Some (Some p) ->
   chain R p /\
@@ -94,4 +106,5 @@ Print Assumptions C15_rrtstar_links.
 Print Assumptions C15_rrtstar_acyclic.
 Print Assumptions C15_extraction_terminates_ordered.
 Print Assumptions C15_extraction_terminates_rrtstar.
+Print Assumptions C15_extraction_never_hangs_rrtstar.
 Print Assumptions C15_extracted_path_sound.
